@@ -359,7 +359,9 @@ def check_C14(tier, seed):
     finish_stats(run, st, 'int_range_lookup: boundary-dense range tables incl. INT32_MIN/INT32_MAX x keys (present, +-1, extremes, random) in the '
                           'leaf tie (%s cases); field-number lookup exercised through unpack on random descriptors with sparse, dense and '
                           'huge ids (every key on the wire is one lookup); distinct = distinct case lines' % li.get('cases'))
-    run.notes.append('name lookups (strcmp binary search) and enum/service descriptors: covered by the generator tie, see C13/C20')
+    import gencheck
+    run.cov['generator_tie'] = gencheck.generator_part(run, 'C14', tier, seed)
+    run.notes.append('name and number lookups on real generated descriptors (messages, enums incl. aliases, services): lines ML MK EL EK SL of the generator tie')
     return conclude(run, gate, obl)
 
 
@@ -593,7 +595,81 @@ def check_C19(tier, seed):
     return conclude(run, gate, obl)
 
 
-CHECKS = {'C19': check_C19, 'C01': check_C01, 'C18': check_C18, 'C02': check_C02, 'C14': check_C14, 'C16': check_C16, 'C17': check_C17}
+def check_C11(tier, seed):
+    run = Run('C11', tier, seed)
+    ctx = build_phase()
+    gate, obl = gate_and_ties(run, ctx, 'C11', seed, tier)
+    rnd = random.Random(seed * 1000003 + 11)
+    st = Stats()
+    envs = envs_for(rnd, tier, 14, 120, big_every=4)
+    per_env = 40 if tier == 'quick' else 120
+    tally = {'dropped_expected_fail': 0, 'complete_expected_ok': 0}
+    for env in envs:
+        st.schemas += 1
+        reqs = [(m.idx, f.id) for m in env.msgs for f in m.fields if f.label == 'REQ' and f.default is None]
+        lines, expect = [], []
+        for _ in range(per_env):
+            d = rnd.randrange(len(env.msgs))
+            m = casegen.gen_msg(rnd, env, d, canon=True)
+            drop = rnd.choice(reqs) if reqs and rnd.random() < 0.6 else None
+            o = casegen.Opts(rnd, shuffle=rnd.random() < 0.5, pad=rnd.random() < 0.3, repack=rnd.random() < 0.3,
+                             unknown=rnd.random() < 0.3, drop=drop)
+            bs = casegen.encode(env, m, o)
+            l = 'UNPACK %d %s' % (d, casegen.hexs(bs))
+            must_fail = drop is not None and casegen.contains_type(env, m, drop[0])
+            lines.append(l); expect.append(must_fail)
+            st.add('UNPACK:required-dropped' if must_fail else 'UNPACK:complete', l)
+            tally['dropped_expected_fail' if must_fail else 'complete_expected_ok'] += 1
+        # plus arbitrary inputs: the correspondence covers the required test on them too
+        extra = stream_unpack(rnd, env, st, per_env // 2)
+        c_out, m_out, bad, c_err, text = corr(run, ctx, env, lines + extra, 'c11')
+        if bad or len(c_out) != len(lines) + len(extra):
+            if len(run.violations) < 3:
+                run.violation(report_disagreement(run, env.text(), lines + extra, c_out, m_out, bad, c_err,
+                                                  'Impl <-> C correspondence (unpack) disagrees'), False)
+            if len(c_out) != len(lines) + len(extra):
+                continue
+        for i, (l, o) in enumerate(zip(lines, c_out)):
+            msg = None
+            if expect[i] and o != 'U FAIL':
+                msg = 'a required field without default is missing from an embedded or top-level message, yet parsing succeeded'
+            elif not expect[i] and o == 'U FAIL':
+                msg = 'a complete message (every required field present; only optional / repeated / oneof fields absent) was rejected'
+            if msg and len(run.violations) < 3:
+                rp = run.replay('oracle-%d.txt' % len(run.violations), '%s\n--- schema + case\n%s%s\n--- implementation output\n%s\n' % (msg, env.text(), l, o[:2000]))
+                run.violation(rp, False)
+    run.cov['expectations'] = tally
+    finish_stats(run, st, 'random schemas (up to 200 fields, >128 for the heap bitmap) x canonical messages encoded by the Python reference encoder '
+                          '(shuffled, padded, repacked, unknown fields interleaved); in 60% one required field without default is left out of every '
+                          'message of one type (top level or embedded at any depth): oracle FAIL iff that type occurs; otherwise must parse; '
+                          'plus the corrupted / random stream for the correspondence')
+    return conclude(run, gate, obl)
+
+
+def gen_check(pid, rule):
+    def chk(tier, seed):
+        import gencheck
+        run = Run(pid, tier, seed)
+        ctx = build_phase()
+        gate, obl = gate_and_ties(run, ctx, pid, seed, tier, need_leaf=(pid == 'C14'))
+        stats = gencheck.generator_part(run, pid, tier, seed)
+        run.cov['generator_tie'] = stats
+        run.cov['evaluations'] = stats['cases']
+        run.cov['distinct_nontrivial'] = stats['cases']
+        run.cov['rule'] = rule
+        run.cov['samples'] = ['fixed protos under harness/gen/fixed_protos', 'protogen seeds %d..' % (seed * 100000)]
+        return conclude(run, gate, obl)
+    return chk
+
+
+GEN_RULE = ('each case = one schema (9 fixed protos + random schemas from harness/gen/protogen.py: proto2/proto3, all scalar types, nesting, '
+            'imports, oneofs, enums with negative/sparse/aliased/extreme values, services with 0..9 methods, protobuf-c options, every kind of '
+            'default): protoc + protoc-gen-c built from the current tree, gcc -std=c99/-std=c11, g++ on the header, reflective dump of the '
+            'compiled descriptors, lookups through the real library, service stubs called; the extracted Coq model of the generator prints the '
+            'same lines from the schema; compared per line kind; plus an oracle that checks the real output against the schema itself')
+
+
+CHECKS = {'C11': check_C11, 'C12': gen_check('C12', GEN_RULE), 'C13': gen_check('C13', GEN_RULE), 'C15': gen_check('C15', GEN_RULE), 'C20': gen_check('C20', GEN_RULE), 'C19': check_C19, 'C01': check_C01, 'C18': check_C18, 'C02': check_C02, 'C14': check_C14, 'C16': check_C16, 'C17': check_C17}
 
 
 def main():
